@@ -305,6 +305,34 @@ func runC16(env *core.Env) {
 			}
 		}
 	}
+	// many calls in one expression: whether a call is accepted does not depend on how many calls precede it
+	i++
+	if env.Mine(i) {
+		chains := map[string]string{}
+		for _, c := range []struct{ recv, call string }{{"'ABC'", ".lower()"}, {"'abc'", ".upper()"}, {"1", ".toString()"}, {"%multi", ".first()"}, {"%multi", ".distinct()"}, {"true", ".not()"}, {"(-5)", ".abs()"}, {"%multi", ".tail()"}, {"'a'", ".toChars()"}, {"1.5", ".round()"}} {
+			for _, k := range []int{8, 31, 32, 33, 40, 64, 130} {
+				chains[fmt.Sprintf("%s%s x%d", c.recv, c.call, k)] = c.recv + strings.Repeat(c.call, k)
+			}
+		}
+		chains["mixed spine"] = "'Ab'" + strings.Repeat(".lower().upper().toString().first()", 12) + ".substring(0, 1)"
+		chains["flat concatenation"] = "''" + strings.Repeat(" & 'a'.lower()", 40)
+		chains["flat argument list"] = "iif(true, " + "'a'" + strings.Repeat(".lower()", 20) + ", 'b'" + strings.Repeat(".upper()", 20) + ")"
+		chains["parenthesised group"] = "(" + "1" + strings.Repeat(" + 'a'.length()", 40) + ")"
+		chains["criteria"] = "%multi.where(" + "$this.toString()" + strings.Repeat(".lower()", 36) + ".exists())"
+		in, eo := stdInputs()
+		for name, src := range chains {
+			env.Cover("long-call-chain")
+			r := fx.Eval(env, src, in, nil, eo)
+			switch {
+			case r.IsPanic():
+				env.Violatef(fx.PanicSig("C16", r), "%s => %s", name, r.Short())
+			case r.Kind == "cerror":
+				env.Violatef("C16/compile-rejected/long-chain", "%s (`%s`): every name is in the table and every count within bounds, but Compile rejects it: %s", name, trunc(src, 80), trunc(r.Short(), 160))
+			case r.IsError() && errors.Is(r.Err, impl.ErrWrongArity):
+				env.Violatef("C16/arity-error-after-accept/long-chain", "%s (`%s`): accepted, evaluation fails with an arity complaint: %v", name, trunc(src, 80), r.Err)
+			}
+		}
+	}
 	// specification reachability + fingerprints
 	for _, sp := range specList {
 		i++
